@@ -318,7 +318,9 @@ open Moto.Disk in
     count of the files stored in it ("empty" / "n file(s)", with the blocks written in verbose mode);
     then `---`, `TOTAL` and the sums over the sections.  The count that closes a section is the
     number of files the written image gained on that side (`newOn`: slots that held no file before
-    and hold one now). -/
+    and hold one now).  The items of the sections, read in order, are exactly the heading of side 0 followed by the
+    events of the batch (`batchEvents`): the names, sizes and verdicts printed are those `announcements_in_order` and C10's
+    `report_sections_list_the_files_in_order` speak about — the text is tied to the image through them. -/
 theorem update_report_text (fl : Flavour) (w : Tape.World) (verbose : Bool) (archive : Str) (img : Image) (srcs : List Str)
     (himg : ImgOk img) (hs : ∀ src ∈ srcs, CleanSrc src) :
     ∃ img' secs, ImgOk img'
@@ -326,9 +328,10 @@ theorem update_report_text (fl : Flavour) (w : Tape.World) (verbose : Bool) (arc
       ∧ (performOn fl w verbose archive img srcs).out = [updateText verbose secs]
       ∧ (performOn fl w verbose archive img srcs).writes = [(archive, save fl img')]
       ∧ secs.map (·.side) = [0, 1, 2, 3]
-      ∧ ∀ sec ∈ secs, (storedOf sec.items).length = newOn img img' sec.side := by
-  obtain ⟨st, secs, hst, hok, hout, hsides, hcnt⟩ := Disk.update_report_text w verbose img srcs himg hs
-  refine ⟨st.img, secs, hok, ?_, ?_, ?_, hsides, hcnt⟩
+      ∧ (∀ sec ∈ secs, (storedOf sec.items).length = newOn img img' sec.side)
+      ∧ secs.flatMap flatSec = LEv.beginSide 0 :: batchEvents w srcs img := by
+  obtain ⟨st, secs, hst, hok, hout, hsides, hcnt, hflat⟩ := Disk.update_report_text w verbose img srcs himg hs
+  refine ⟨st.img, secs, hok, ?_, ?_, ?_, hsides, hcnt, hflat⟩
   · unfold performOn
     rw [if_neg (by rw [himg.1]; omega), hst]
   · unfold performOn
@@ -346,9 +349,10 @@ theorem create_report_text (fl : Flavour) (w : Tape.World) (verbose : Bool) (arc
       ∧ (create fl w verbose archive srcs).out = [updateText verbose secs]
       ∧ (create fl w verbose archive srcs).writes = [(archive, save fl img')]
       ∧ secs.map (·.side) = [0, 1, 2, 3]
-      ∧ ∀ sec ∈ secs, (storedOf sec.items).length = ((List.range 112).countP fun j => (imgFileAt img' sec.side j).isSome) := by
-  obtain ⟨img', secs, hok, _, hout, hw, hsides, hcnt⟩ := update_report_text fl w verbose archive _ srcs fresh_img_ok hs
-  refine ⟨img', secs, hok, hout, hw, hsides, ?_⟩
+      ∧ (∀ sec ∈ secs, (storedOf sec.items).length = ((List.range 112).countP fun j => (imgFileAt img' sec.side j).isSome))
+      ∧ secs.flatMap flatSec = LEv.beginSide 0 :: batchEvents w srcs ((List.replicate 4 blankSide).map initFileSystem) := by
+  obtain ⟨img', secs, hok, _, hout, hw, hsides, hcnt, hflat⟩ := update_report_text fl w verbose archive _ srcs fresh_img_ok hs
+  refine ⟨img', secs, hok, hout, hw, hsides, ?_, hflat⟩
   intro sec hm
   rw [hcnt sec hm]
   unfold newOn
